@@ -875,7 +875,7 @@ def ub_replay(unit, fname, vals, info, kind):
 
 class RGoal:
     """a goal in real mode that can also be evaluated numerically with a tolerance: kind in eq/le/lt/ge/gt"""
-    def __init__(s, kind, l, r, guard=None): s.kind = kind; s.l = l; s.r = r; s.guard = guard    # guard: optional Bool; the goal is guard -> atom
+    def __init__(s, kind, l, r, guard=None, tol=None): s.kind = kind; s.l = l; s.r = r; s.guard = guard; s.tol = tol    # guard: optional Bool; the goal is guard -> atom; tol: optional relative tolerance of the numeric replay (default 2e-3 float / 1e-6 double)
     def term(s):
         l, r = s.l, s.r
         a = {'eq': l == r, 'le': l <= r, 'lt': l < r, 'ge': l >= r, 'gt': l > r}[s.kind]
@@ -917,6 +917,7 @@ def real_replay(unit, fname, vals, spec_fn, pre_fn, oname, pid):
         if isinstance(g, RGoal):
             if getattr(g, 'guard', None) is not None and z3.is_false(z3.simplify(g.guard)): info['note'] = 'guard false on the replayed values'; return 'not-reproduced', info
             l = num(g.l); r = num(g.r); sc = max(1.0, abs(l), abs(r)); info['lhs'] = l; info['rhs'] = r
+            if getattr(g, 'tol', None) is not None: tol = g.tol; info['tol'] = tol
             bad = {'eq': abs(l - r) > tol * sc, 'le': l - r > tol * sc, 'lt': l - r >= -0.0 and l - r > tol * sc, 'ge': r - l > tol * sc, 'gt': r - l > tol * sc}[g.kind]
             return ('reproduced' if bad else 'not-reproduced'), info
         v = z3.simplify(g)
